@@ -12,7 +12,7 @@ import (
 )
 
 func init() {
-	register(&Rule{ID: "P-SWITCH-DEFAULT", Props: []string{"C04", "C01"}, Floor: 8,
+	register(&Rule{ID: "P-SWITCH-DEFAULT", Props: []string{"C04", "C01"}, Floor: 5,
 		Doc: "every switch on a lexer.TokenType in the parser is exhaustive: it has a default clause, or no case body can fall out of the switch (so the code after it handles exactly the unmatched tokens); an unmatched token must never merge silently with a handled one",
 		Run: rulePSwitchDefault})
 	register(&Rule{ID: "P-CHAIN-ELSE", Props: []string{"C04", "C12"}, Floor: 3,
